@@ -141,6 +141,15 @@ class Fold:
         for loc, l, e in self.updates:
             if any(x[0] == "var" and x[1] in self.accs for x in subexprs(e)):
                 raise ShapeNotRecognised("accumulator addend depends on an accumulator")
+        # ... and so must every condition an update is guarded by: a guard that reads a running total
+        # (`if phase < 24 { phase += .. }`) makes the result depend on the order squares are visited,
+        # which the colour mirror reverses
+        from wa.cond import dominating_facts as _df
+        for loc, l, e in self.updates:
+            for d, vs, excl, s, tg in _df(b, ex, loc[0]):
+                if s in self.loop and any(x[0] == "var" and x[1] in self.accs for x in subexprs(d)):
+                    raise ShapeNotRecognised("update of `%s` at %s is guarded by `%s`, which reads a running total: the fold is not order-independent" % (
+                        b.lname(l), b.where(loc), show_expr(d, b)[:60]))
         # the square being scored
         self.colours = f.enum_variant_by_discr("board::PieceColor")
 
